@@ -6,6 +6,7 @@ from ..mon_problem import mon_mapping_asset, mon_mapping_portfolio
 PROPERTY = 'C07'
 CASES = {'quick': 240, 'thorough': 5000}
 BUDGET_S = {'quick': 150, 'thorough': 1500}
+SUITE_UNDER_MONITORS = True      # thorough tier: the repository's own tests are an extra workload under the passive monitors
 RULE = ('case = one random mixed portfolio (every asset class incl. OrderBook with orders outside the horizon, periodic and coarse-frequency '
         'assets, CHP/Plant with appended booleans and fuel rows, Scaled/Structured wrappers, hostile names in a third of the cases) set up through '
         'the real Portfolio.setup_optim_problem (a third via setup_split_optim_problem); the monitor evaluates every asset-level and '
